@@ -1,6 +1,7 @@
 import QuillModel.Props.C09Backend
 import QuillModel.Backend.ConcRead
 import QuillModel.Backend.ConcDrain
+import QuillModel.Props.C06Progress
 /-!
 # C09 — a blocked call resumes, while other threads keep logging
 
@@ -113,6 +114,50 @@ theorem C09_blocked_call_resumes_concurrent (s0 : BSt) (h0 : StartF s0) (pre suf
   · exact List.eq_nil_of_length_eq_zero (by omega)
   · exact h
 
+/-- **`flush_log()` returns while other threads keep logging — the caller still in its retry loop.** Composition of
+    `C09_blocked_call_resumes_concurrent` and `C06_flush_log_returns_concurrent`. Hypotheses of C05; blocking queue with the
+    publish-when-drained rule. The schedule is `pre ++ s1 ++ [resume a] ++ s2`, with `pre`, `s1`, `s2` **arbitrary**:
+    at the end of `pre ++ s1` actor `a` is parked on the retry of its refused Flush request `st` (flag `f`), its context `i`
+    accepted nothing during `s1`, was ripe at the end of `pre`, and `s1` has at least as many polls as the queue held
+    records — then `resume a` commits the request; and if the productive operations of `s2` reach the number of records with
+    timestamp `≤ st.ts` not yet popped, the flag is raised at the end and every caller parked on it is released ("done"). -/
+theorem C06_flush_log_returns_concurrent_retry (s0 : BSt) (hA : PA.Fresh s0) (h0 : StartF s0) (hg : s0.cfg.grace ≠ 0)
+    (hr : s0.cfg.refreshAfterSample = true) (hdp : s0.cfg.qp.drainPublish = true) (hblk : s0.cfg.dropping = false)
+    (pre s1 s2 : List Op) (a : Nat) (x : Actor) (st : Stmt) (f i : Nat)
+    (hx : (runOps s0 (pre ++ s1)).actor a = some x) (hp : x.pend = .retry st 1) (hi : x.ctx = some i)
+    (hk : st.kind = .flush f) (hsz : st.size ≤ s0.cfg.qcap)
+    (hrun : (runOps s0 (pre ++ s1)).backendGone = false)
+    (hripe : ∀ r ∈ ((runOps s0 pre).th i).accepted, r.ts + s0.cfg.grace ≤ (runOps s0 pre).now)
+    (hacc : ((runOps s0 (pre ++ s1)).th i).accepted.length = ((runOps s0 pre).th i).accepted.length)
+    (hn : ((runOps s0 pre).th i).qStmts.length ≤ pollCount s1)
+    (hprem : GracePremise (runOps s0 (pre ++ s1 ++ [.front (.resume a)] ++ s2)))
+    (hn2 : accLE (runOps s0 (pre ++ s1 ++ [.front (.resume a)] ++ s2)) st.ts ≤
+      (runOps s0 (pre ++ s1 ++ [.front (.resume a)])).popLog.length +
+        productive (runOps s0 (pre ++ s1 ++ [.front (.resume a)])) s2) :
+    f ∈ (runOps s0 (pre ++ s1 ++ [.front (.resume a)] ++ s2)).flags ∧
+    ∀ b y, (runOps s0 (pre ++ s1 ++ [.front (.resume a)] ++ s2)).actor b = some y → y.pend = .flag f →
+      (resume (runOps s0 (pre ++ s1 ++ [.front (.resume a)] ++ s2)) b).2 = "done" := by
+  obtain ⟨hgr, _⟩ := C09_blocked_call_resumes_concurrent s0 h0 pre s1 a x st 1 i hdp hblk hx hp hi hsz hrun hripe hacc hn
+  -- the request, stamped with its commit instant, is in the accepted history right after the `resume`
+  have e1 : runOps s0 (pre ++ s1 ++ [.front (.resume a)]) = (applyOp (runOps s0 (pre ++ s1)) (.front (.resume a))).1 := by
+    simp [runOps, List.foldl_append]
+  have hths : ∀ j, ((applyOp (runOps s0 (pre ++ s1)) (.front (.resume a))).1.th j) = (resume (runOps s0 (pre ++ s1)) a).1.th j := by
+    intro j
+    simp only [applyOp, applyFront]
+    split
+    · rfl
+    · split <;> rfl
+  have hmem : ({ st with enqAt := (runOps s0 (pre ++ s1)).now } : Stmt) ∈
+      ((runOps s0 (pre ++ s1 ++ [.front (.resume a)])).th (ensureCtx (runOps s0 (pre ++ s1)) a).2).accepted := by
+    rw [e1, hths, hgr]; simp
+  have e2 : runOps s0 (pre ++ s1 ++ [.front (.resume a)] ++ s2) =
+      runOps (runOps s0 (pre ++ s1 ++ [.front (.resume a)])) s2 := by simp [runOps, List.foldl_append]
+  have hmem2 : ({ st with enqAt := (runOps s0 (pre ++ s1)).now } : Stmt) ∈
+      ((runOps s0 (pre ++ s1 ++ [.front (.resume a)] ++ s2)).th (ensureCtx (runOps s0 (pre ++ s1)) a).2).accepted := by
+    rw [e2]; exact (mono_runOps s2 _).mem_acc hmem
+  exact C06_flush_log_returns_concurrent s0 hA h0 hg hr (pre ++ s1 ++ [.front (.resume a)]) s2 _
+    { st with enqAt := (runOps s0 (pre ++ s1)).now } f hprem hmem2 hk hn2
+
 /-! ### non-vacuity -/
 
 /-- the blocking scenario of `Props/C09Backend.lean` (a 1024-byte queue filled by thread 1, its second call refused and parked),
@@ -138,6 +183,29 @@ example :
     let s := runOps (c09Init true) c09Block
     (s.th 0).qStmts.length = 1 ∧ (s.th 0).buf.length = 0 ∧ s.cfg.grace = 0 ∧
     ((populate (runInj [(2, 1, [.tstart 2, .log 2 0 4 10 true])]) { s with siteCnt := [] }).1.th 0).buf.length = 1 := by
+  decide +kernel
+
+/-- non-vacuity of `C06_flush_log_returns_concurrent_retry` (blocking 1024-byte queue, grace 10): thread 1's 1009-byte statement
+    fills the queue, its `flush_log` request (40 bytes) is refused and parked on the retry; while thread 2 logs inside the poll
+    (site 3) the backend reads thread 1's queue; `resume 1` commits the request (thread 1 now waits on flag 0); thread 2 logs
+    again; one productive poll later the flag is raised and `resume 1` answers "done". All hypotheses are checked (the clock
+    advances by exactly the grace period, so that the retried request is still committed within the grace premise). -/
+example :
+    let pre : List Op := [.front (.tstart 1), .front (.tstart 2), .front (.log 1 0 4 972 true), .front (.flush 1 0), .front (.tick 10)]
+    let s1 : List Op := [.poll [(3, 1, [.log 2 0 4 10 true])]]
+    let s2 : List Op := [.front (.log 2 0 4 10 true), .poll []]
+    let sA := runOps (c05Init true) pre
+    let sB := runOps (c05Init true) (pre ++ s1)
+    let sC := runOps (c05Init true) (pre ++ s1 ++ [.front (.resume 1)])
+    let sD := runOps (c05Init true) (pre ++ s1 ++ [.front (.resume 1)] ++ s2)
+    (c05Init true).cfg.qp.drainPublish = true ∧ (c05Init true).cfg.dropping = false ∧
+    (sB.actor 1).map (fun x => (x.pend matches .retry _ 1, x.ctx)) = some (true, some 0) ∧
+    (sB.actor 1).map (fun x => match x.pend with | .retry st _ => (st.kind matches .flush 0, st.size, st.ts) | _ => (false, 0, 0)) =
+      some (true, 40, 1000) ∧
+    sB.backendGone = false ∧ (sA.th 0).accepted.map (·.ts) = [1000] ∧ sA.now = 1010 ∧
+    (sB.th 0).accepted.length = (sA.th 0).accepted.length ∧ (sA.th 0).qStmts.length ≤ pollCount s1 ∧
+    GracePremise sD ∧ accLE sD 1000 = 2 ∧ sC.popLog.length = 1 ∧ productive sC s2 = 1 ∧
+    sD.flags = [0] ∧ (resume sD 1).2 = "done" ∧ (sD.th 1).accepted.length = 2 := by
   decide +kernel
 
 end Backend
